@@ -198,7 +198,7 @@ struct World {
       if (cpu_at_start < 0 && waited_ms >= 1000) cpu_at_start = cpu_ms_of(p.realpid);   // measured from the first second of waiting on
       if (waited_ms > hang_ms && waited_ms % 1000 == 0 && cpu_ms_of(p.realpid) - cpu_at_start < hang_ms / 2) {
         // not computing: the process is starved by the load on this machine (or stopped); that is the harness's problem, never a verdict
-        if (waited_ms > 600000) throw HarnessError{"simulated process " + p.name + " made no request for 600 s without using the CPU (slot " + std::to_string(p.slot) + ")", true};
+        if (waited_ms > 180000) throw HarnessError{"simulated process " + p.name + " made no request for 180 s without using the CPU (slot " + std::to_string(p.slot) + ")", true};
       } else if (waited_ms > hang_ms && waited_ms % 1000 == 0) {
         // the program computes (or sleeps in a call the model does not know) without ever asking the kernel for anything: every program of the
         // suite is I/O bound, so this is an endless loop in user space
